@@ -17,6 +17,8 @@ THEOREM_FILE = "Properties/C08.v"
 COQCHK = ["Properties.C08"]
 COQ_NEEDS = ["Delta.DeltaVerifyHyp"]
 RULE = ("pairs as in C01 (ordered mode; random nested values with 1-3 edits, planted atom-list edits, independent pairs) x zip x threshold; "
+        "the refusal of subtraction is checked for bidirectional=False x always_include_values x raise_errors; operation sequences (+corrupted, +corrupted, +t1, -t2, +corrupted, +corrupted) "
+        "on ONE Delta object (raise_errors True and False) are compared step by step with a fresh object and with the pure model; "
         "for each delta every values_changed / type_changes path is corrupted once with a value that differs (Python !=) from the recorded "
         "old value; back-and-forth sequences of length <= 6. Non-trivial = non-empty delta; distinct by (t1,t2,config[,corruption]).")
 TRUSTED = c01.TRUSTED
@@ -192,14 +194,23 @@ def one_pair(ctx, t1, t2, cases, corr=True, hyp_cases=None):
                 ctx.count("back_and_forth_sequences")
             except Exception as e:
                 ctx.fail(dict(base_case, observed="raised %s" % type(e).__name__), "back-and-forth sequence raised")
-        # --- a directed delta refuses subtraction ---
-        try:
-            copy.deepcopy(t2) - Delta(dd)
-            ctx.fail(dict(base_case, observed="no exception"), "a non-bidirectional delta accepted subtraction")
-        except ValueError:
-            pass
-        except Exception as e:
-            ctx.fail(dict(base_case, observed="raised %s" % type(e).__name__), "a non-bidirectional delta did not refuse subtraction with ValueError")
+        # --- a directed delta refuses subtraction, whatever the other flags are ---
+        refused = {}
+        for aiv in (False, True):
+            for re_ in (False, True):
+                flags = dict(bidirectional=False, always_include_values=aiv, raise_errors=re_)
+                ctx.count("refusal:aiv=%s,raise=%s" % (aiv, re_))
+                try:
+                    got = copy.deepcopy(t2) - Delta(dd, **flags)
+                    refused[(aiv, re_)] = False
+                    ctx.fail(dict(base_case, delta_flags=flags, observed="no exception: " + repr(got)[:120]),
+                             "a non-bidirectional delta accepted subtraction")
+                except ValueError:
+                    refused[(aiv, re_)] = True
+                except Exception as e:
+                    refused[(aiv, re_)] = False
+                    ctx.fail(dict(base_case, delta_flags=flags, observed="raised %s" % type(e).__name__),
+                             "a non-bidirectional delta did not refuse subtraction with ValueError")
         # --- corruption detection ---
         corrupt_cases = []
         for cat in ("values_changed", "type_changes"):
@@ -252,6 +263,51 @@ def one_pair(ctx, t1, t2, cases, corr=True, hyp_cases=None):
                           [payload, [DC.canon_unordered(fwd), False]], dict(tag, op="add")))
             cases.append((DC.model_expr(t1, t2, zip_, thr, True, False, t2, conv, rrem, radd, want="sub"),
                           [payload, [DC.canon_unordered(back), False]], dict(tag, op="sub")))
+            # the refusal in the model (a function of bidirectional only), always_include_values varied independently
+            for aiv in (False, True):
+                try:
+                    dird = Delta(dd, always_include_values=aiv)
+                    cases.append((DC.model_expr(t1, t2, zip_, thr, False, aiv, t2, conv, rem, add, want="sub"),
+                                  [DC.delta_obs(dird.diff), "NotBidirectional" if refused.get((aiv, False)) else "accepted"],
+                                  dict(tag, op="sub refused", always_include_values=aiv)))
+                except Exception:
+                    pass
+            # --- operation sequences on ONE Delta object: the model's apply is a pure function of (delta, base) ---
+            if corrupt_cases and rng.random() < (0.5 if ctx.thorough else 0.35):
+                cbase = corrupt_cases[0][0]
+                seq = [("add", cbase), ("add", cbase), ("add", t1), ("sub", t2), ("add", cbase), ("add", cbase)]
+                ctx.count("reuse_sequences")
+                for re_ in (True, False):
+                    obj = Delta(dd, bidirectional=True, raise_errors=re_)
+                    for k, (op, base) in enumerate(seq):
+                        def run_on(o):
+                            with DC.Counting() as c0:
+                                try:
+                                    r0 = (copy.deepcopy(base) + o) if op == "add" else (copy.deepcopy(base) - o)
+                                    return ("ok", r0, c0.n)
+                                except Exception as e:
+                                    return ("raised " + type(e).__name__, None, c0.n)
+                        got = run_on(obj)
+                        ref = run_on(Delta(dd, bidirectional=True, raise_errors=re_))
+                        same = got[0] == ref[0] and (got[1] is None or V.typed_eq(got[1], ref[1])) and (got[2] > 0) == (ref[2] > 0)
+                        if not same:
+                            ctx.fail(dict(base_case, raise_errors=re_, step=k, sequence=[(o, repr(b)) for o, b in seq],
+                                          observed=dict(reused=(got[0], repr(got[1]), got[2]), fresh=(ref[0], repr(ref[1]), ref[2]))),
+                                     "a reused Delta object behaves differently from a fresh one (history dependence) at step %d" % k)
+                            break
+                        if base is cbase and re_ and got[0] == "ok":
+                            ctx.fail(dict(base_case, raise_errors=True, step=k, base=repr(base), observed="no exception"),
+                                     "a mismatched base was accepted by a reused Delta object (raise_errors=True)")
+                            break
+                        # correspondence: every step of the logging object against the pure model
+                        if not re_ and got[0] == "ok" and k in (1, 3, 5) and DC.in_universe(base) and DC.in_universe(got[1]):
+                            if op == "add":
+                                cv2 = DC.conv_table(pairs + [(type(x.t2), get_safe(base, x)) for x in dd.get("type_changes", []) if get_safe(base, x) is not DC._NF])
+                                cases.append((DC.model_expr(t1, t2, zip_, thr, True, False, base, cv2, rem, add),
+                                              [payload, [DC.canon_unordered(got[1]), got[2] > 0]], dict(tag, op="reused object, step %d: add" % k, base=repr(base))))
+                            else:
+                                cases.append((DC.model_expr(t1, t2, zip_, thr, True, False, base, conv, rrem, radd, want="sub"),
+                                              [payload, [DC.canon_unordered(got[1]), got[2] > 0]], dict(tag, op="reused object, step %d: sub" % k)))
             if hyp_cases is not None:
                 kn = keys_nonneg(t2)
                 ctx.count("hyp:keys_nonneg_true" if kn else "hyp:keys_nonneg_false")
